@@ -264,6 +264,18 @@ static void scenario(const std::string &scen, int run, Circuit base, const Coloq
       Circuit a = base;
       int m2 = (int)r.pick(std::vector<int>{0, 0, 1, 2, 3});       // rowSideMargin = m2 / 2 row heights
       int p64 = (int)r.in(1, 63);                                  // target density / density cap = p64 / 64
+      if (r.chance(0.6)) {
+        // a target above the present density, so that the expansion has something to do
+        long long cellArea = 0;
+        for (int i = 0; i < a.nbCells(); ++i)
+          if (!a.isFixed(i)) cellArea += a.area(i);
+        long long avail = 0;
+        for (const Row &fr : a.computeRows()) avail += std::max<long long>(0, (long long)fr.width() - (long long)m2 * fr.height()) * fr.height();
+        if (avail > 0 && cellArea > 0 && cellArea < avail) {
+          int lo64 = (int)std::min<long long>(63, 64 * cellArea / avail + 1);
+          p64 = (int)r.in(lo64, 63);
+        }
+      }
       Value before = vp::circuitToJson(a);
       Value e = vt::ev("Expand");
       e.set("run", run).set("m2", m2).set("p64", p64).set("before", before);
@@ -363,6 +375,41 @@ static void scenario(const std::string &scen, int run, Circuit base, const Coloq
   }
 }
 
+// TLC-enumerated tiny expansion problem (ExpansionCases): both expansion entry points with the emitted arguments.  The Reset
+// line carries the case, so that a replay re-executes exactly it.
+static void runExpCase(const Value &b, int timeout, const std::string &errPath) {
+  long long k = b["run"].asInt();
+  Circuit base = vp::circuitFromJson(b["circ"]);
+  Value rs = vt::ev("Reset");
+  rs.set("run", k).set("scen", "expcase").set("gseed", k).set("params", vg::paramsToJson(ColoquinteParameters(3))).set("circ", b["circ"]).set("wl", 0);
+  rs.set("case", b);
+  vt::emit(rs);
+  int p64 = (int)b["p64"].asInt(), m2 = (int)b["m2"].asInt(), cap64 = (int)b["cap64"].asInt();
+  vt::forked((int)k, timeout, errPath, [&] {
+    for (int rep = 0; rep < 2; ++rep) {
+      Circuit a = base;
+      Value e = vt::ev("Expand");
+      e.set("run", (int)k).set("m2", m2).set("p64", p64).set("before", vp::circuitToJson(a));
+      std::string outcome = "ok";
+      try {
+        if (rep == 0) {
+          a.expandCellsToDensity(p64 / 64.0, m2 / 2.0, cap64 / 64.0);
+          e.set("kind", "density").set("cap64", cap64);
+        } else {
+          std::vector<float> f;
+          for (long long q : b["f4"].longs()) f.push_back((float)q / 4.0f);
+          double ret = a.expandCellsByFactor(f, p64 / 64.0, m2 / 2.0);
+          e.set("kind", "factor").set("f4", b["f4"]).set("ret1000", (long long)std::llround(std::min(ret, 1.0e6) * 1000.0));
+        }
+      } catch (std::exception &ex) {
+        outcome = "error";
+      }
+      e.set("outcome", outcome).set("after", vp::circuitToJson(a));
+      vt::emit(e);
+    }
+  }, "expand");
+}
+
 int main(int argc, char **argv) {
   for (int i = 1; i < argc; ++i) {
     const char *eq = strchr(argv[i], '=');
@@ -378,6 +425,10 @@ int main(int argc, char **argv) {
     std::string line;
     std::getline(f, line);
     Value rs = vj::parse(line);
+    if (rs.has("case") && rs["scen"].asStr() == "expcase") {
+      runExpCase(rs["case"], timeout, errPath);
+      return 0;
+    }
     Circuit base = vp::circuitFromJson(rs["circ"]);
     // parameters are regenerated from the recorded generator seed
     vg::Rng pr((uint64_t)rs["pseed"].asInt());
@@ -421,36 +472,7 @@ int main(int argc, char **argv) {
         continue;
       }
       if (b.has("scen") && b["scen"].asStr() == "expcase") {
-        // TLC-enumerated tiny expansion problem (ExpansionCases): both expansion entry points with the emitted arguments
-        long long k = b["run"].asInt();
-        Circuit base = vp::circuitFromJson(b["circ"]);
-        Value rs = vt::ev("Reset");
-        rs.set("run", k).set("scen", "expcase").set("gseed", k).set("params", vg::paramsToJson(ColoquinteParameters(3))).set("circ", b["circ"]).set("wl", 0);
-        vt::emit(rs);
-        int p64 = (int)b["p64"].asInt(), m2 = (int)b["m2"].asInt(), cap64 = (int)b["cap64"].asInt();
-        vt::forked((int)k, timeout, errPath, [&] {
-          for (int rep = 0; rep < 2; ++rep) {
-            Circuit a = base;
-            Value e = vt::ev("Expand");
-            e.set("run", (int)k).set("m2", m2).set("p64", p64).set("before", vp::circuitToJson(a));
-            std::string outcome = "ok";
-            try {
-              if (rep == 0) {
-                a.expandCellsToDensity(p64 / 64.0, m2 / 2.0, cap64 / 64.0);
-                e.set("kind", "density").set("cap64", cap64);
-              } else {
-                std::vector<float> f;
-                for (long long q : b["f4"].longs()) f.push_back((float)q / 4.0f);
-                double ret = a.expandCellsByFactor(f, p64 / 64.0, m2 / 2.0);
-                e.set("kind", "factor").set("f4", b["f4"]).set("ret1000", (long long)std::llround(std::min(ret, 1.0e6) * 1000.0));
-              }
-            } catch (std::exception &ex) {
-              outcome = "error";
-            }
-            e.set("outcome", outcome).set("after", vp::circuitToJson(a));
-            vt::emit(e);
-          }
-        });
+        runExpCase(b, timeout, errPath);
         continue;
       }
       if (!b.has("shape")) continue;
@@ -492,6 +514,8 @@ int main(int argc, char **argv) {
   go.globalDomain = argi("globalDomain", 0);
   go.singleRowOnly = argi("singleRowOnly", 0);
   go.unitRows = argi("unitRows", 0);
+  go.tallMix = argi("tallMix", 0);
+  go.twoTypes = argi("twoTypes", 0);
   go.zeroAreaMovable = argi("zeroAreaMovable", 0);
   go.utilLo = atof(args("utilLo", "0.05").c_str());
   go.utilHi = atof(args("utilHi", "1.3").c_str());
